@@ -1257,6 +1257,30 @@ pub fn gen_scene(r: &mut Rng, k: &Knobs, cover: &mut crate::Cover) -> Scene {
             }
         }
     }
+    if k.meta_heavy && r.chance(1, 6) {
+        // nothing forbids two images or two point clouds with the same GUID: every one of them must survive
+        let mut last_img: Option<String> = None;
+        let mut last_pc: Option<String> = None;
+        for it in items.iter_mut() {
+            match it {
+                Item::Img(im) => {
+                    if let Some(g) = &last_img {
+                        im.guid = g.clone();
+                        cover.hit("scene:images-share-guid");
+                    }
+                    last_img = Some(im.guid.clone());
+                }
+                Item::Pc(pc) => {
+                    if let Some(g) = &last_pc {
+                        pc.guid = g.clone();
+                        cover.hit("scene:pointclouds-share-guid");
+                    }
+                    last_pc = Some(pc.guid.clone());
+                }
+                _ => {}
+            }
+        }
+    }
     let wild = k.meta_heavy;
     Scene {
         guid: if k.wild_strings {
